@@ -198,10 +198,10 @@ struct BufCtr : Ctr {
     const unsigned char *p   = ares_buf_peek(buf, &len);
     s.set("len", J::Int((long)ares_buf_len(buf)));
     s.set("rem", bytes(p, len));
-    // The tag is read back with ares_buf_tag_fetch.  On a writable buffer that no append call has
-    // touched yet the state dump does not read it (tagged = -1: not observed); the tag reads are
-    // calls of their own there (tag_fetch_bytes, tag_fetch_string, tag_fetch_strdup).
-    if (!isconst && !filled) {
+    // The tag is read back with ares_buf_tag_fetch after every call.  (With DSA_NO_TAG_READ_ON_EMPTY set,
+    // a writable buffer that no append call has touched yet is not read: tagged = -1, "not observed";
+    // that was used while ares_buf_tag_fetch computed NULL + 0 there, KF-C19-7, now fixed.)
+    if (!isconst && !filled && getenv("DSA_NO_TAG_READ_ON_EMPTY")) {
       s.set("tagged", J::Int(-1)); s.set("tlen", J::Int((long)ares_buf_tag_length(buf))); s.set("tbytes", J::Arr());
     } else {
       const unsigned char *t = ares_buf_tag_fetch(buf, &tlen);
@@ -232,7 +232,7 @@ struct BufCtr : Ctr {
   J randop(Rng &r, long nkeys, long step, long nops) override {
     long   len = (long)ares_buf_len(buf);
     size_t tl  = 0;
-    bool   tagged = (isconst || filled) && ares_buf_tag_fetch(buf, &tl) != nullptr;
+    bool   tagged = ares_buf_tag_fetch(buf, &tl) != nullptr;
     long   target = 8 * nkeys;
     if (step == nops - 1 && r.chance(40)) return op_make(r.chance(50) ? "finish_bin" : "finish_str");
     if (len == 0) phase = 0;
@@ -257,7 +257,7 @@ struct BufCtr : Ctr {
     if (x < 14) return op_make("tag_rollback");
     if (x < 19) return op_make("tag_clear");
     // (explicit tag reads on a writable buffer without storage are left to the exhaustive scripts)
-    bool canread = isconst || filled;
+    bool canread = true;
     if (x < 23) return canread ? op_make("tag_fetch_bytes", r.below((long)tl + 3)) : op_make("len");
     if (x < 26) return canread ? op_make("tag_fetch_string", r.below((long)tl + 3)) : op_make("len");
     if (x < 28) return canread ? op_make("tag_fetch_strdup") : op_make("peek_byte");
